@@ -159,7 +159,7 @@ def r2(ctx):
 def r3_r5(ctx):
     facts = ctx.facts
     r3 = Rule("C12.R3", "discovered never lets the local node's record reach the table", floor=1, engine="A-dom")
-    r5 = Rule("C12.R5", "a discovered record replaces a stored one only if strictly newer, under its own id", floor=2, engine="A-dom + A-prov")
+    r5 = Rule("C12.R5", "a record learnt from the network replaces a stored one only if strictly newer, under its own id (discovered and session paths)", floor=3, engine="A-dom + A-prov")
     cbs = [b for p, b in facts.bodies.items() if strip_closure(p) == SV + "discovered" and p != SV + "discovered"]
     main = [b for b in cbs if any(short(t.callee() or "") == KT + "update_node" for _, t in b.calls())]
     if len(main) != 1:
@@ -218,6 +218,44 @@ def r3_r5(ctx):
         r = b.reachable(0, removed_edges=newer)
         r5.check(bool(newer) and bi not in r, "update only past stored.seq() < record.seq()", "update|not-newer",
                  "a discovered record can replace a stored one without having a strictly higher sequence number", loc=b.loc(t.line))
+    # the session path: the record a handshake hands on (and which then overwrites the table entry through inject_session_established)
+    # is the attached one only when the node had no record, or the attached one is strictly newer than the known one
+    import c01
+    ef = facts.one(r"crate::handler::session::Session::establish_from_challenge$")
+    r5.analysed(ef)
+    ep = Prov(ef, facts)
+    eg = Guards(ef, ep, facts)
+    rec = c01.is_param("enr_record")
+    # the local returned as the session's record: second component of the Ok tuple
+    ret_l = None
+    ok_payload = set()
+    for blk in ef.blocks:
+        for s_ in blk.stmts:
+            if s_.k == "a" and s_.lhs.is_local() and s_.lhs.local == 0 and s_.rv.k == "agg" and s_.rv.j.get("variant") == "Ok" and s_.rv.ops[0].place is not None and \
+                    blk.idx in ef.live_blocks():
+                ok_payload.add(s_.rv.ops[0].place.local)
+    for blk in ef.blocks:
+        for s_ in blk.stmts:
+            if s_.k == "a" and s_.lhs.is_local() and s_.lhs.local in ok_payload and s_.rv.k == "agg" and s_.rv.j.get("ak") == "tuple" and len(s_.rv.ops) == 2 and \
+                    s_.rv.ops[1].place is not None:
+                ret_l = s_.rv.ops[1].place.local
+    if ret_l is None:
+        raise AnchorError("establish_from_challenge: the (session, record) result was not found")
+    sel = c01.selection_blocks(ef, ep, ret_l, rec)
+    newer, unknown = [], []
+    for bi, t, e in eg.switches():
+        c = comparison(e)
+        if c and c[0] in (">", "<"):
+            hi_, lo_ = (c[1], c[2]) if c[0] == ">" else (c[2], c[1])
+            if fmt_short(hi_).startswith("Enr::seq(") and fmt_short(lo_).startswith("Enr::seq(") and derives(hi_, rec) and "remote_enr" in fmt_short(lo_):
+                newer.append((bi, eg.bool_edges(bi)[1]))
+        if e[0] == "discr" and "remote_enr" in fmt_short(e[1]) and not derives(e[1], rec):
+            names, _ = eg.variant_names(bi)
+            unknown += [(bi, tb) for v, tb in t.vals if names.get(v) == "None"]
+    r = ef.reachable(0, removed_edges=newer + unknown)
+    r5.check(bool(sel) and bool(newer) and not any(sb in r for sb in sel), "handshake: the attached record becomes the session's record only if none was known or attached.seq() > known.seq()",
+             "session|not-newer", "establish_from_challenge can hand on the record attached to the handshake although a record with the same or a higher sequence number is "
+             "known: the stale record then replaces the stored one through inject_session_established", loc=ef.loc(ef.line))
     return r3, r5
 
 
